@@ -737,6 +737,12 @@ def check_c06(prop, tier, seed, devices):
                 if rnd.random() < 0.2:
                     els[rnd.randrange(len(els))] = rnd.choice(elems_pool)
                 lists.append(els)
+            # tables of bare literals in every radix (a leading zero means octal), with and without a comment behind them
+            for radix in ("oct", "0x", "$", "0b", "dec"):
+                for vs in ([8, 1], [0o377 if w == 1 else 0o1777, 0], [7, 8, 9, 64], [0, 0o10, 0o100], [63]):
+                    for cm in (False, True):
+                        prog = [seg(segname), data(w, *[E(lit(v_)) for v_ in vs])] + ([line("blank", cmt="table")] if cm else []) + [data(w, E(lit(9)))]
+                        cases.append(Case(prog, tag="%s.radix" % segname, spells=[Spell(radix=radix)] * len(prog)))
             for els in lists:
                 prog = [equ("k1", 0x41), seg(segname), label("here"), data(w, *copy.deepcopy(els))]
                 second = rnd.choice([None, data(1, E(0x7e)), data(2, E(0x1234)), byte(3) if segname != "code" else instr("nop")])
